@@ -199,6 +199,38 @@ Theorem mk_reader_spec text : mk_reader text = split_lines (blank_reserved text)
 Proof. unfold mk_reader. apply re_split_is_split_lines. Qed.
 
 (* ---- re-encoding the terminators ---- *)
+(* the lines of the reader contain no line terminator *)
+Lemma nlfree_frev cur : nlfree cur -> nlfree (frev cur).
+Proof. intros H c Hc. apply H. rewrite frev_rev in Hc. apply in_rev. exact Hc. Qed.
+
+Lemma split_lines_aux_nlfree : forall n s cur, (length s <= n)%nat -> nlfree cur -> Forall nlfree (split_lines_aux s cur).
+Proof.
+  induction n as [|n IH]; intros s cur Hn Hc.
+  - destruct s; [|simpl in Hn; lia]. cbn [split_lines_aux]. constructor; [apply nlfree_frev; exact Hc|constructor].
+  - destruct s as [|x t]; [cbn [split_lines_aux]; constructor; [apply nlfree_frev; exact Hc|constructor]|].
+    assert (Nil : nlfree []) by (intros c []).
+    destruct (x =? 13) eqn:E13.
+    + apply N.eqb_eq in E13. subst x. destruct t as [|y t'].
+      * cbn [split_lines_aux]. constructor; [apply nlfree_frev; exact Hc|]. constructor; [apply nlfree_frev; exact Nil|constructor].
+      * destruct (y =? 10) eqn:E10.
+        -- apply N.eqb_eq in E10. subst y. cbn [split_lines_aux]. constructor; [apply nlfree_frev; exact Hc|].
+           apply IH; [simpl in *; lia|exact Nil].
+        -- assert (Es : split_lines_aux (13 :: y :: t') cur = frev cur :: split_lines_aux (y :: t') []).
+           { cbn [split_lines_aux]. destruct y as [|py]; [reflexivity|].
+             destruct py as [[[|[]|]|[[]|[]|]|]|[[|[]|]|[]|]|]; try reflexivity. discriminate E10. }
+           refine (eq_ind _ (fun l => Forall nlfree l) _ _ (eq_sym Es)). constructor; [apply nlfree_frev; exact Hc|]. apply IH; [simpl in *; lia|exact Nil].
+    + destruct (x =? 10) eqn:E10.
+      * apply N.eqb_eq in E10. subst x. cbn [split_lines_aux]. constructor; [apply nlfree_frev; exact Hc|].
+        apply IH; [simpl in *; lia|exact Nil].
+      * assert (Es : split_lines_aux (x :: t) cur = split_lines_aux t (x :: cur)).
+        { cbn [split_lines_aux]. destruct x as [|px]; [reflexivity|].
+          destruct px as [[[|[]|]|[[]|[]|]|]|[[|[]|]|[]|]|]; try reflexivity; try discriminate E10; try discriminate E13. }
+        refine (eq_ind _ (fun l => Forall nlfree l) _ _ (eq_sym Es)). apply IH; [simpl in *; lia|]. intros c [<-|Hin]; [unfold is_nl; rewrite E13, E10; reflexivity|apply Hc; exact Hin].
+Qed.
+
+Theorem mk_reader_nlfree text : Forall nlfree (mk_reader text).
+Proof. rewrite mk_reader_spec. unfold split_lines. eapply split_lines_aux_nlfree; [apply le_n|intros c []]. Qed.
+
 Lemma split_aux_prefix l : forall rest cur, nlfree l ->
   split_lines_aux (l ++ rest) cur = split_lines_aux rest (rev_append l cur).
 Proof.
